@@ -223,6 +223,7 @@ func runC03(c *core.Ctx, o Options) {
 		}
 	}
 	// every error return is non-nil: paths not accepting return something else than nil — by construction of the census above (nNil == 1)
+	c.RuleMin = map[string]int{"V1": 3, "V2": 2, "V3": 1, "V4": 3, "V5": 3}
 	c.MinObl = 12
 }
 
